@@ -344,6 +344,13 @@ pub fn scenario(seed: u64, idx: u64) -> Trace {
                     b.push(Op::Insert { table: "Same2".into(), rows });
                     b.push(Op::Insert { table: "Same2".into(), rows: vec![vec![Val::Int(40000), s.clone(), Val::Str("Q79Qother".into())]] });
                     b.push(Op::Observe);
+                    // a table *named* like the string whose first entry is saturated: its catalog cells
+                    // point at the second entry
+                    b.push(Op::CreateTable { name: "Q77Qshared".into(), cols: vec![ColSpec::new("K", CType::I16).key()] });
+                    b.push(Op::Insert { table: "Q77Qshared".into(), rows: vec![vec![Val::Int(1)]] });
+                    b.restart(&mut rng);
+                    b.push(Op::DropTable { name: "Q77Qshared".into() });
+                    b.push(Op::Observe);
                 }
                 2 => {
                     // one statement that assigns more strings than the pool could hold if each were new
